@@ -23,7 +23,7 @@ def floors(tier):
     return {'distinct_nontrivial': 1000 if tier == 'quick' else 80000, 'inverse_returned': 700, 'two_sided_checked': 700,
             'singular_operands_seen': 40, 'zerodivision_checked_against_oracle': 40, 'division_checked': 300,
             'number_over_x_checked': 150, 'negative_power_checked': 150, 'd5_closed_form_cases': 40, 'd6plus_iterative_cases': 100, 'd6plus_degenerate_r2_cases': 60,
-            'padded_or_permuted_layouts': 300, 'empty_dividends': 60}
+            'padded_or_permuted_layouts': 300, 'empty_dividends': 60, 'single_grade_non_blade_operands': 40}
 
 
 def plan(tier, seed):
@@ -102,7 +102,13 @@ def gen_operand(ctx, alg, canon, unit):
     d = alg.d
     cap = unit['cap']
     layout = 'canonical'
-    if unit.get('dense') and rng.random() < 0.2:
+    if d >= 4 and rng.random() < 0.15:
+        # a homogeneous operand that is not a blade (e.g. e12 + e34): 2-3 blades of one grade
+        g = rng.choice([g_ for g_ in range(1, d) if len([k for k in canon if bin(k).count('1') == g_]) >= 2])
+        pool = [k for k in canon if bin(k).count('1') == g]
+        keys = tuple(rng.sample(pool, min(len(pool), rng.randint(2, 3))))
+        layout = 'single-grade'
+    elif unit.get('dense') and rng.random() < 0.2:
         keys = canon if rng.random() < 0.5 else tuple(range(len(canon)))
         layout = 'dense'
     else:
@@ -116,7 +122,10 @@ def gen_operand(ctx, alg, canon, unit):
     if all(v == 0 for v in vals.values()):
         vals[keys[0]] = Fr(1)
     r = rng.random()
-    if layout != 'dense' and r < 0.25:
+    if layout == 'single-grade':
+        if r < 0.3:
+            keys = gen.permuted(rng, keys)
+    elif layout != 'dense' and r < 0.25:
         keys = gen.permuted(rng, keys)
         layout = 'permuted'
     elif layout != 'dense' and r < 0.5:
@@ -151,6 +160,8 @@ def one_operand(ctx, alg, iso, cfg, name, canon, unit):
         ctx.sample({'config': name, 'keys': list(keys), 'values': [str(vals[k]) for k in keys], 'layout': layout})
     if layout != 'canonical':
         ctx.count('padded_or_permuted_layouts')
+    if layout == 'single-grade':
+        ctx.count('single_grade_non_blade_operands')
     if d == 5:
         ctx.count('d5_closed_form_cases')
     if d >= 6:
